@@ -16,9 +16,9 @@ for d in sorted(glob.glob('/verif/seeded/*/')):
                 first = line.strip()[len('violation '):].split(': ')[0][:90]
                 break
     rows.append((name, j.get('breaks_property', ''), (j.get('summary') or '')[:150].replace('|', '/').replace('\n', ' '),
-                 (j.get('needs_to_manifest') or '')[:120].replace('|', '/').replace('\n', ' '), 'yes' if det else 'NO', first))
+                 (j.get('needs_to_manifest') or '')[:120].replace('|', '/').replace('\n', ' '), ('n/a (no longer a violation, see note)' if j.get('superseded') else ('yes' if det else 'NO')), first))
 print('| seeded change | property | what it does | needs to manifest | detected by `./check` | first clause reported |')
 print('|---|---|---|---|---|---|')
 for r in rows:
     print('| ' + ' | '.join(r) + ' |')
-print(f'\n{sum(1 for r in rows if r[4]=="yes")} of {len(rows)} detected.')
+print(f'\n{sum(1 for r in rows if r[4]=="yes")} of {len(rows)} detected; {sum(1 for r in rows if r[4].startswith("n/a"))} superseded by a later fix of /repo (C08_m1: equivalent to the unchanged code since fix 17aeac7).')
